@@ -169,6 +169,15 @@ fn progress(idx: usize) {
     rt::with(|r| r.fp.set(r.fp.get() ^ rt::state::mix(0xC0FF_EE00_0000_0000 | idx as u64, 0x51)));
 }
 
+/// A bounded retry (a sender with max_retry, a consumer with max_empty) came one step
+/// closer to giving up: progress of the workload itself, so that long spin configurations
+/// (50 + 50 attempts inside every start_send) cannot add up to a no-progress window. The
+/// number of such ticks in a run is finite by construction.
+#[inline]
+fn bounded_tick() {
+    rt::with(|r| r.fp.set(r.fp.get() ^ rt::state::mix(0xB0DD_0000_0000_0000 | r.steps.get(), 0x77)));
+}
+
 fn ret(idx: usize, res: Res) {
     hist::ret(idx, res);
     match res {
@@ -492,9 +501,12 @@ impl Ctx {
                             }
                         }
                         tries += 1;
-                        if max_retry != UNLIMITED && tries > max_retry {
-                            drop(p);
-                            continue 'values;
+                        if max_retry != UNLIMITED {
+                            bounded_tick();
+                            if tries > max_retry {
+                                drop(p);
+                                continue 'values;
+                            }
                         }
                         rt::shim::yield_now();
                     }
@@ -621,8 +633,11 @@ impl Ctx {
                         }
                         Res::Empty => {
                             empties += 1;
-                            if max_empty != UNLIMITED && empties > max_empty {
-                                break;
+                            if max_empty != UNLIMITED {
+                                bounded_tick();
+                                if empties > max_empty {
+                                    break;
+                                }
                             }
                             rt::shim::yield_now();
                         }
@@ -1009,6 +1024,9 @@ impl<'a> Future for SendFut<'a> {
                     hist::update(idx, |r| r.back_serial = b.serial);
                     ret(idx, Res::NotReady);
                     self.tries += 1;
+                    if self.max_retry != UNLIMITED {
+                        bounded_tick();
+                    }
                     if self.max_retry != UNLIMITED && self.tries > self.max_retry {
                         drop(b);
                         self.remaining -= 1;
@@ -1088,6 +1106,7 @@ impl<'a> Future for RecvFut<'a> {
                         // a consumer that does not want to wait: poll again right away (it
                         // notifies itself) and walk away after max_empty attempts
                         self.empties += 1;
+                        bounded_tick();
                         if self.empties > self.max_empty {
                             return Ok(Async::Ready(()));
                         }
@@ -1420,10 +1439,15 @@ fn prepare(scn: &Scenario, cfg: &SchedCfg) {
             r.trap_probe.set(p as usize);
             r.trap_countdown.set(nth);
             r.trap_len.set(len);
+            if let Some(t) = scn.trap_thread {
+                // non-spawned threads are started by main in order: task id = index + 1
+                r.trap_task.set(t as usize + 1);
+            }
         }
         payload::reset(r.exec_id.get(), scn.slow_clone, scn.slow_view, scn.slow_drop);
         r.trace.set(std::env::var_os("VERIF_TRACE").is_some());
         r.post_write.set(scn.post_write);
+        r.post_load.set(scn.post_load);
         r.active.set(true);
     });
     rt::galloc::set_quarantine(scn.quarantine);
